@@ -4,9 +4,10 @@ CONSTANTS
   MaxProd = 4  MaxTables = 1  MaxDepth = 2
   OpenKinds = {"Device"}  DeclKindsOn = {}
   Forms = {"abs"}
+  FieldKinds = {"Field", "IndexField", "BankField"}
   ScopeOn = TRUE  FieldOn = FALSE  MethodFlags = {1}  StmtKinds = {"call1"}  MaxStmts = 1
   Widths = {}
-  Excluded = {"D1", "D1b", "D2", "D2c", "D3", "D5", "D7", "D8", "D9"}
+  Excluded = {"D1", "D1b", "D2", "D2c", "D3", "D5", "D7", "D8", "D9", "D10", "D11"}
   Emit = FALSE  Bug = "CallsInFirstPass"
 INIT Init
 NEXT Next
